@@ -235,8 +235,8 @@ class World:
         if name == "add_child":
             if a[2] == -1:
                 n(a[0]).add_child(n(a[1]))
-            else:
-                n(a[0]).add_child(n(a[1]), index=a[2])
+            else:                    # the model logs a negative Python index j as j - 1 (-1 itself means "no index")
+                n(a[0]).add_child(n(a[1]), index=a[2] if a[2] >= 0 else a[2] + 1)
             return 0
         if name == "remove_child":
             n(a[0]).remove_child(n(a[1]))
